@@ -5,6 +5,8 @@ import Heathcliff.Proofs.C01O
 import Heathcliff.Proofs.C04M
 import Heathcliff.Proofs.GenGalois
 import Heathcliff.Proofs.GenGalois2
+import Heathcliff.Proofs.GenGalois3
+import Heathcliff.Proofs.GenWord6
 
 /- Property theorems only (statements verbatim; proofs are the helper lemmas of Heathcliff/Proofs). -/
 namespace HC.C04
@@ -172,6 +174,34 @@ theorem gen_galois_apply_loop_eq (a : List Nat) (g : Nat) (m : Modulus) (k : Nat
 /-- `reverse_bits_u32(x, bc)` = `brev bc x` (`u32::reverse_bits` is the primitive `revBits 32`) -/
 theorem gen_reverse_bits_u32_eq (x bc : Nat) (hbc : bc ≤ 32) (hx : x < 2^bc) : GenW.reverse_bits_u32 x bc = .ok (brev bc x) :=
   HC.gy_reverse_bits_u32_eq x bc hbc hx
+
+/-! ### translator tie, phase 4d (Proofs/GenGalois3.lean): `GaloisTool::generate_table_ntt` (the NTT-form permutation table) generated from
+     source = `galoisTableNtt k g` of Model/Galois.lean, about which `galoisTableNtt_spec` & co. above are stated.  Tool fields
+     `coeff_count = 2^k`, `coeff_count_power = k`.  `k ≤ 31`: `reverse_bits_u32(_, k + 1)` computes `32 - (k + 1)` with overflow checks and
+     `i as u32` must not truncate; `g·(2^(k+1) − 1) < 2^64`: `galois_elt as u64 * reversed as u64` is overflow-checked and `reversed`
+     reaches `2^(k+1) − 1` at the last index (`_lib`: implied by `g < 2N`, the range of Galois elements). -/
+theorem gen_generate_table_ntt_eq (k g : Nat) (hk : k ≤ 31) (hg : g * (2^(k+1) - 1) < 2^64) :
+    GenG.generate_table_ntt g (2^k) k = .ok (galoisTableNtt k g).toList := HC.gq_generate_table_ntt_eq k g hk hg
+theorem gen_generate_table_ntt_eq_lib (k g : Nat) (hk : k ≤ 31) (hg : g < 2^(k+1)) :
+    GenG.generate_table_ntt g (2^k) k = .ok (galoisTableNtt k g).toList := HC.gq_generate_table_ntt_eq_lib k g hk hg
+/-- the generated loop from position `2^k + j` = writing entry `i` at position `i` for the remaining positions -/
+theorem gen_generate_table_ntt_loop_eq (k g : Nat) (hk : k ≤ 31) (hg : g * (2^(k+1) - 1) < 2^64) (cnt j : Nat) (res : List Nat)
+    (h1 : j + cnt = 2^k) (h2 : res.length = 2^k) :
+    GenG.generate_table_ntt_loop1 g (2^k) (2^k - 1) k cnt (2^k + j) res =
+      .ok ((List.range' j cnt).foldl (fun r i => r.set i (gq_entry k g i)) res) := HC.gq_table_loop_eq k g hk hg cnt j res h1 h2
+
+/-! ### translator tie, phase 4d (Proofs/GenWord6.lean): `util::naf` (src/util/number_theory.rs; i32 arithmetic: `+ - *`, unary `-`, `abs` are
+     overflow-checked `ckI32`, `&` is two's complement, `>> 1` arithmetic, `1 << i` checks only the amount) generated into Gen/Word2Fns.lean
+     = `HC.naf` of Model/Word.lean (about which `naf_spec` / the default-key theorems are stated) for `|value| < 2^30`.  The bound is exactly
+     where the two can part: the code computes a digit as `±1 * (1_i32 << i)`; from `|value| ≥ 2^30` on a digit at `i = 31` can occur, where
+     `1 << 31 = i32::MIN`, whereas the model's `2^i` is unbounded (rotation steps are `< N/2 ≤ 2^16`).  `naf(i32::MIN)`: both refuse. -/
+theorem gen_naf_eq (value : Int) (h : value.natAbs < 2^30) : GenW2.naf value = HC.naf value := HC.gn_naf_eq value h
+theorem gen_naf_min : GenW2.naf (-2147483648) = .error .overflow ∧ HC.naf (-2147483648) = .error .overflow := HC.gn_naf_min
+/-- the generated loop from any reachable state (`gn_Inv V v i`: `v·2^i < V + 2^i`, and `2^i ≤ 2V` while `v ≥ 1`) -/
+theorem gen_naf_loop_eq (V : Nat) (hV : V < 2^30) (s : Bool) (fuel v i : Nat) (res : List Int) (h : gn_Inv V v i) :
+    GenW2.naf_loop1 res s fuel (v : Int) (i : Int) = .ok (res ++ nafLoop fuel v i s []) := HC.gn_loop_eq V hV s fuel v i res h
+/-- non-vacuity: a negative step -/
+example : GenW2.naf (-7) = .ok [1, -8] ∧ HC.naf (-7) = .ok [1, -8] := by constructor <;> decide
 
 /-! ### key switching of the model end to end: phase(ct') = phase(ct) + target*s' + nu modulo every level modulus / modulo Q / against Spec.phase, explicit noise bound, BGV branch (nu = 0 mod t), relinearize and applyGalois corollaries (phase of the result = sigma_g(phase) + nu)
     (statements, hypothesis bundles and non-vacuity instances: Heathcliff/Proofs/C04K.lean, section "Property theorems") -/
